@@ -514,3 +514,19 @@ pub fn spawn<F: FnOnce() + Send + 'static>(f: F) -> (usize, std::thread::JoinHan
         .expect("spawn");
     (id, h)
 }
+
+/// One-line description of the scheduler state (who is where), for hang reports. Uses try_lock:
+/// the state may be held by a stuck thread.
+pub fn describe() -> String {
+    match SCHED.try_lock() {
+        Ok(g) => match g.as_ref() {
+            Some(s) => {
+                let st: Vec<String> = s.threads.iter().enumerate().map(|(i, t)| format!("t{i}:{t:?}")).collect();
+                let ev: Vec<String> = s.recent.iter().rev().take(8).map(|(t, site, b)| format!("t{t}:{site}{}", if *b { "(b)" } else { "" })).collect();
+                format!("current=t{} {} || last events (newest first): {}", s.current, st.join(" "), ev.join(" "))
+            }
+            None => "inactive".into(),
+        },
+        Err(_) => "state locked".into(),
+    }
+}
